@@ -348,7 +348,7 @@ func c37Build(rc *RC, compactBuild bool) {
 
 func c37History(rc *RC) {
 	g := newCityGen(rc)
-	kind := rc.Draw(wkCount)
+	kind := rc.Pick(3, 3, 3, 1, 1) // not over a compact base: its one-level FindReferences is C02's subject
 	rc.Knob("world-kind", kind)
 	base := g.baseCity(true)
 	w, err := makeMutableWorld(rc, g, kind, base)
